@@ -587,14 +587,24 @@ pub fn analyze(sc: &StreamScenario, out: &StreamOutcome) -> Analysis {
                                         || matches!(res, AppRes::IncompatibleVersion(_));
                                     // is it a later or earlier frame's result? (lost / duplicated)
                                     let later = model.expects.iter().skip(nf + 1).position(|e| render_expect(e) == got);
-                                    let kind = if gate && same_modulo_gate(exp, res) {
+                                    let prev_same = nf > 0 && render_expect(&model.expects[nf - 1]) == got;
+                                    let version_error_for_non_ver = matches!(res, AppRes::IncompatibleVersion(_)) && !model.has_ver[nf];
+                                    let kind = if let Some(k) = later {
+                                        // the result of a later frame: something in between got lost
+                                        if matches!(exp, Expect::BadVersion(_)) && k == 0 && matches!(res, AppRes::Pkt(_)) && !prev_same {
+                                            // ... and what got lost is exactly the version error due here
+                                            "gate.rejection_lost"
+                                        } else if version_error_for_non_ver && prev_same {
+                                            // a stale version error repeated for a frame that is not a VER
+                                            "gate.wrong_decision"
+                                        } else if k == 0 {
+                                            "order.frame_lost"
+                                        } else {
+                                            "order.frames_lost"
+                                        }
+                                    } else if gate && same_modulo_gate(exp, res) {
                                         "gate.wrong_decision"
-                                    } else if matches!(exp, Expect::BadVersion(_)) && later.is_some() {
-                                        // the version error that was due here never surfaced
-                                        "gate.rejection_lost"
-                                    } else if let Some(k) = later {
-                                        if k == 0 { "order.frame_lost" } else { "order.frames_lost" }
-                                    } else if nf > 0 && render_expect(&model.expects[nf - 1]) == got {
+                                    } else if prev_same {
                                         "order.duplicated"
                                     } else {
                                         "order.wrong_result"
